@@ -15,6 +15,7 @@ import (
 	"strings"
 	"sync"
 	"time"
+	"verifsim/sched"
 )
 
 // Exit codes: 0 held, 1 violation (with a VIOLATION line), 2 harness trouble.
@@ -212,8 +213,8 @@ func cmdWorker(args []string) int {
 		for k, v := range res.Counters {
 			wo.Counters[k] += v
 		}
-		if res.Nontrivial {
-			nontriv[res.Sig] = true
+		if res.Nontrivial && len(nontriv) < 400000 {
+			nontriv[res.Sig] = true // (capped: the count is then a lower bound)
 		}
 		if res.Switches > 0 {
 			swsigs[res.SwitchSig] = true
@@ -887,7 +888,12 @@ func cmdFingerprint(args []string) int {
 	for i := 0; i < *n; i++ {
 		sc := p.Generate(*seed, i, "quick")
 		res := runGuarded(p, sc)
-		fmt.Printf("%s %d %016x %d %d %v\n", p.ID(), i, res.Fingerprint, res.Evals, len(res.Violations), res.Invalid)
+		var cs []string
+		for k, v := range res.Counters {
+			cs = append(cs, fmt.Sprintf("%s=%d", k, v))
+		}
+		sort.Strings(cs)
+		fmt.Printf("%s %d %016x %d %d %v sw=%016x pts=%d %s\n", p.ID(), i, res.Fingerprint, res.Evals, len(res.Violations), res.Invalid, res.SwitchSig, res.Points, strings.Join(cs, ","))
 	}
 	return 0
 }
@@ -930,6 +936,15 @@ func minimiseWith(p Prop, sc *Scenario, budget time.Duration, test func(*Scenari
 			return true
 		}
 		return false
+	}
+	// Replace a generated (PRNG-driven) schedule by the explicit list of
+	// decisions it took, so that the schedule itself can be shrunk.
+	if cur.Sched.Strategy != "" && cur.Sched.Strategy != "explicit" && cur.Sched.Strategy != "seq" {
+		if r0 := runGuarded(p, cur); len(r0.Recorded) > 0 {
+			c := cur.Clone()
+			c.Sched = sched.Config{Strategy: "explicit", Explicit: r0.Recorded, MaxPoints: cur.Sched.MaxPoints}
+			try(c)
+		}
 	}
 	for pass := 0; pass < 6 && time.Now().Before(deadline); pass++ {
 		progress := false
@@ -988,6 +1003,17 @@ func minimiseWith(p Prop, sc *Scenario, budget time.Duration, test func(*Scenari
 				c.Sched.Explicit = append(append(c.Sched.Explicit[:0:0], cur.Sched.Explicit[:i]...), cur.Sched.Explicit[i+n:]...)
 				return c
 			}, try) || progress
+		}
+		// schedule: shorter runs (fewer forced stays on one task)
+		for i := 0; i < len(cur.Sched.Explicit) && time.Now().Before(deadline); i++ {
+			if n := cur.Sched.Explicit[i].N; n > 1 {
+				c := cur.Clone()
+				c.Sched.Explicit[i].N = n / 2
+				if try(c) {
+					progress = true
+					i--
+				}
+			}
 		}
 		if !progress {
 			break
